@@ -9,6 +9,10 @@ CHECKS = {
         "families": ["xr"],
         "trusted_base": [ZR, INT64, "the underlying io.ReadSeeker is exact (failing sources belong to C09)"],
         "assumptions": [ZR, INT64],
+        "level_text": "full: Lean theorem C07_readseeker — for every well-formed layout (any chunks, empty chunks, several indexes), every sequence of Seek (any offset/whence incl. invalid) and Read (any buffer length incl. 0) and every legal behaviour of the inflater, the trace of the xflate.Reader model is a trace of a ReadSeeker over the plaintext; Read always returns (loop bound proved); index.Search proved equal to its specification. The two defects this exposed (D1, D2) are repaired in /repo and kept as machine-checked counter-examples on the pre-fix model.",
+        "level_note": "Trusted: Lean kernel (axioms propext, Classical.choice, Quot.sound only); the model of Reader.Read/Seek/Close is hand-written and tied to /repo by a call-by-call correspondence run (48k op sequences per quick run, incl. state hook offset) — sampling, not proof; the standard-library inflater is a contract (ZRSpec) measured on every run; int64 wrap-around and failing ReadSeekers are outside this theorem.",
         "explanation": "simulation theorem: every Seek/Read sequence on the xflate.Reader model returns what a ReadSeeker over the plaintext returns, for every well-formed layout and every adversarial choice of inflater read sizes",
     },
 }
+
+NOT_APPLICABLE = {}
